@@ -82,7 +82,7 @@ def selections(d, kinds):
     out = {
         'empty': S.SubsetState(), 'range': S.RangeSubsetState(-1, 4, f), 'inequality': i >= 2, 'ineq-cid-cid': f > i,
         'roi': S.RoiSubsetState(f, i, R.RectangularROI(-2.5, 6.5, 0.5, 3.5)), 'roi-nd': S.RoiSubsetStateNd([f, i], R.CircularROI(2, 2, 3.1)),
-        'roi-pixel': S.RoiSubsetState(px[-1], px[0], R.RectangularROI(-0.5, 1.5, -0.5, 1.5)),
+        'roi-pixel': S.RoiSubsetState(px[-1], px[0], R.RectangularROI(0.5, 1.5, -0.5, 0.5)),      # last axis == 1 and first axis == 0: depends on both
         'category': S.CategorySubsetState(c, [0, 2]), 'categorical-roi': S.CategoricalROISubsetState(c, R.CategoricalROI(['b'])),
         'element': S.ElementSubsetState([0, 2, d.size - 1]), 'mask': S.MaskSubsetState(m, d.pixel_component_ids),
         'slice': S.SliceSubsetState(d, sl), 'slice-stepped': S.SliceSubsetState(d, sl2),
